@@ -775,7 +775,7 @@ func main() {
 	for _, k := range []string{"delRoute", "delBlacklist", "delRewriter", "delAggregator", "addRoute", "addBlacklist", "addRewriter", "addAggregator"} {
 		res.Floor("config_change_"+k, cnt("config_change_"+k), n/30)
 	}
-	res.Floor("config_changes_through_admin_command", cnt("config_changes_through_admin_command"), n/100)
+	res.Floor("config_changes_through_admin_command", cnt("config_changes_through_admin_command"), n/mon.N(100, 400)) // one change in 20 (thorough: 80) asks for the command, and deletes of blacklist entries / rewriters / aggregators have none
 	res.Floor("calls_not_forwarded_on_a_table_after_a_runtime_delete", cnt("calls_not_forwarded_on_a_table_after_a_runtime_delete"), n)
 	res.Floor("zero_timestamp_points", cnt("zero_timestamp_points"), n/3)
 	res.Floor("fractional_timestamp_points", cnt("fractional_timestamp_points"), n/3)
